@@ -50,3 +50,30 @@ Theorem C04_max_reset_equiv_binary64 : forall (s s1 s0 : @Max PrimFloat.float) (
   Forall okF xs -> Proofs.WF.wf_max s -> max_reset FOps s = Ok s1 -> max_new FOps (max_period s) = Ok s0 ->
   max_outs FOps s1 xs = max_outs FOps s0 xs.
 Proof. intros s s1 s0 xs H. apply max_reset_equiv. exists okF. split; [exact float_order_max|exact H]. Qed.
+
+(* ---- the indicators built on Minimum / Maximum: observational equality with a fresh instance on every totally
+        ordered continuation (FastStochastic on both paths, SlowStochastic, ChandelierExit) — with these, all 22 kinds ---- *)
+From TA Require Import Proofs.GenericProofs Proofs.Wiring Proofs.ResetLift.
+Theorem C04_fast_reset_equiv : forall (F : Type) (O : Ops F) (s s1 s0 : @Fast F) (xs : list F),
+  min_order_ok O xs -> max_order_ok O xs -> wf_fast s -> fast_reset O s = Ok s1 -> fast_new O (fast_period s) = Ok s0 ->
+  fast_outs O s1 xs = fast_outs O s0 xs.
+Proof. exact @fast_reset_equiv. Qed.
+Theorem C04_fast_bar_reset_equiv : forall (F : Type) (O : Ops F) (s s1 s0 : @Fast F) (bs : list (Bar F)),
+  min_order_ok O (map b_low bs) -> max_order_ok O (map b_high bs) -> wf_fast s ->
+  fast_reset O s = Ok s1 -> fast_new O (fast_period s) = Ok s0 -> fast_bar_outs O s1 bs = fast_bar_outs O s0 bs.
+Proof. exact @fast_bar_reset_equiv. Qed.
+Theorem C04_slow_reset_equiv : forall (F : Type) (O : Ops F) (s s1 s0 : @Slow F) (xs : list F),
+  min_order_ok O xs -> max_order_ok O xs -> wf_slow O s -> slow_reset O s = Ok s1 ->
+  slow_new O (fast_period (slow_fast s)) (ema_period (slow_ema s)) = Ok s0 -> slow_outs O s1 xs = slow_outs O s0 xs.
+Proof. exact @slow_reset_equiv. Qed.
+Theorem C04_ce_reset_equiv : forall (F : Type) (O : Ops F) (s s1 s0 : @Ce F) (bs : list (Bar F)),
+  min_order_ok O (map b_low bs) -> max_order_ok O (map b_high bs) -> wf_ce O s -> ce_reset O s = Ok s1 ->
+  ce_new O (ema_period (atr_ema (ce_atr s))) (ce_multiplier s) = Ok s0 -> ce_outs O s1 bs = ce_outs O s0 bs.
+Proof. exact @ce_reset_equiv. Qed.
+(* binary64, continuation free of NaN and -0.0: bit-identical *)
+Theorem C04_fast_reset_equiv_binary64 : forall (s s1 s0 : @Fast PrimFloat.float) (xs : list PrimFloat.float),
+  Forall okF xs -> wf_fast s -> fast_reset FOps s = Ok s1 -> fast_new FOps (fast_period s) = Ok s0 ->
+  fast_outs FOps s1 xs = fast_outs FOps s0 xs.
+Proof.
+  intros s s1 s0 xs H. apply fast_reset_equiv; exists okF; (split; [|exact H]); [exact float_order_min|exact float_order_max].
+Qed.
